@@ -4,7 +4,7 @@ I=${1:-0}; N=${2:-1}
 export OMP_NUM_THREADS=2 MKL_NUM_THREADS=2
 while true; do
   did=0; k=0
-  for d in /tmp/seed/C*-out/[a-j]*; do
+  for d in /tmp/seed/C*-out/[a-l]*; do
     [ -d $d ] || continue
     k=$((k+1)); [ $((k % N)) = $I ] || continue
     [ -f $d/patch.diff ] && [ -f $d/demo.py ] && [ -f $d/README.md ] || continue
